@@ -20,7 +20,7 @@ DISTINCT_RULE = (
 )
 RULES = ["determinism", "delivery", "chronology", "clock", "clock-restored"]
 MINIMA = {"quick": {"rule_determinism": 40, "rule_delivery": 500, "rule_chronology": 100, "rule_clock": 8000, "rule_clock-restored": 500}, "thorough": {"rule_determinism": 1500}}
-ASSUMPTIONS = ["delivery predictor B5 (status != OPEN always delivered; inplay / seconds_to_start / max_inplay_seconds as documented)", "fresh processes: PYTHONHASHSEED in {0,1,random}, wall clock shifted by years"]
+ASSUMPTIONS = ["delivery predictor B5 (status != OPEN always delivered; inplay / seconds_to_start / max_inplay_seconds as documented)", "fresh processes: PYTHONHASHSEED in {0,1,random}, wall clock shifted by years, local time zones UTC / New York / Tokyo / Auckland"]
 WATCHDOG = {"quick": 900, "thorough": 5400}
 FILTERS = [
     {},
@@ -207,7 +207,8 @@ def run_delivery(desc, out):
 
 def run_determinism(desc, out):
     case, snaps = build(desc)
-    case["listener_kwargs"] = {}
+    if desc["idx"] % 3 != 0:
+        case["listener_kwargs"] = {}  # (every third scenario keeps its listener filter: what is delivered is part of the result)
     # contention for the same traded volume (where an unstable iteration order would show) in both isolation modes
     rng = simgen.mk_rng(desc["seed"], desc["idx"], 141)
     case["config"] = {"simulated_strategy_isolation": desc["idx"] % 2 == 0}
@@ -234,7 +235,8 @@ def run_determinism(desc, out):
         settings = [("0", 0), ("1", 3.2e8), ("random", -1.7e8), ("12345", 86400 * 365.25 * 20)][: desc["runs"]]
         procs = []
         for j, (hs, shift) in enumerate(settings):
-            env = dict(os.environ, PYTHONHASHSEED=hs, VERIF_CLOCK_SHIFT=str(shift), PYTHONDONTWRITEBYTECODE="1", VERIF_SLOW="0.04" if (slow and j == 1) else "0")
+            # (the process's local time zone is part of its environment too)
+            env = dict(os.environ, PYTHONHASHSEED=hs, VERIF_CLOCK_SHIFT=str(shift), PYTHONDONTWRITEBYTECODE="1", VERIF_SLOW="0.04" if (slow and j == 1) else "0", TZ=("UTC", "America/New_York", "Asia/Tokyo", "Pacific/Auckland")[j % 4])
             procs.append(subprocess.Popen([sys.executable, "-m", "vf.c14child", path], env=env, stdout=subprocess.PIPE, stderr=subprocess.PIPE, text=True))
         for p in procs:
             try:
